@@ -1454,6 +1454,17 @@ def db_retry(func: Callable) -> Callable:
 
     @wraps(func)
     def wrapper(self: "RedunBackendDb", *args, **kwargs):
+        if getattr(self, "_db_retry_active", False):
+            # Nested call (e.g. record_value() inside record_call_node()): the rollback below would
+            # discard the rows the calling operation has pending. Let the outermost call retry.
+            return func(self, *args, **kwargs)
+        self._db_retry_active = True
+        try:
+            return retry(self, *args, **kwargs)
+        finally:
+            self._db_retry_active = False
+
+    def retry(self: "RedunBackendDb", *args, **kwargs):
         self._db_retries_attempt = 0
         while True:
             try:
